@@ -61,6 +61,7 @@ SIGS = {
     'to_dot': ['olint'],
     'support': ['int'],
     'is_essential': ['int', 'int'],
+    'assert_consistent': [],
 }
 
 
@@ -156,6 +157,7 @@ ASIGS = {
     'gc': [], 'reorder': ['odnn'], 'configure': ['obool'], 'set_last_len': ['oint'],
     'set_trig': ['oint'], 'copy': ['int', 'int'], 'shutdown': [],
     'add_expr': ['spell'], 'to_expr': ['int'],
+    'assert_consistent': [],
     'json_dump': ['hroots', 'lint'], 'json_load': ['dnn', 'roots', 'jnodes', 'bool'],
 }
 
